@@ -310,8 +310,25 @@ def infer_printed_type(t):
                         to_replaceT = t.var_T
                 find_to_replace(t.body)
             elif t.is_comb():
-                find_to_replace(t.fun)
-                find_to_replace(t.arg)
+                # Constants printed as notation (operator symbols, the cons/nil and insert/empty_set
+                # of a literal, if-then-else) have no place for a type annotation: never choose them.
+                from data import list as hol_list, set as hol_set
+                from syntax import operator
+                op = operator.get_info_for_fun(t.head)
+                if hol_list.is_literal_list(t):
+                    for item in hol_list.dest_literal_list(t):
+                        find_to_replace(item)
+                elif hol_set.is_literal_set(t):
+                    for item in hol_set.dest_literal_set(t):
+                        find_to_replace(item)
+                elif (op is not None and ((op.arity == operator.BINARY and t.is_binop()) or
+                                          (op.arity == operator.UNARY and len(t.args) == 1))) or \
+                     t.is_comb('IF', 3):
+                    for arg in t.args:
+                        find_to_replace(arg)
+                else:
+                    find_to_replace(t.fun)
+                    find_to_replace(t.arg)
 
         find_to_replace(t)
         recover_const_type(t)
